@@ -861,3 +861,37 @@ Proof.
 Qed.
 
 End Proofs.
+
+(* ---------- the structural comparison used by the correspondence check is sound ---------- *)
+Lemma pkey_eqb_sound a b : pkey_eqb a b = true -> a = b.
+Proof.
+  destruct a, b; simpl; try discriminate; intros H.
+  - apply String.eqb_eq in H. congruence.
+  - apply Z.eqb_eq in H. congruence.
+Qed.
+
+Lemma pyval_eqb_sound : forall a b, pyval_eqb a b = true -> a = b.
+Proof.
+  fix IH 1. intros a b. destruct a; destruct b; simpl; try discriminate; intros H.
+  - reflexivity.
+  - apply Bool.eqb_prop in H. congruence.
+  - apply Z.eqb_eq in H. congruence.
+  - apply Z.eqb_eq in H. congruence.
+  - apply String.eqb_eq in H. congruence.
+  - f_equal. revert l0 H. induction l as [|x r IHl]; destruct l0; simpl; try discriminate; auto.
+    intros H. apply andb_true_iff in H. destruct H as [H1 H2]. f_equal; [apply IH; exact H1|apply IHl; exact H2].
+  - f_equal. revert l0 H. induction l as [|x r IHl]; destruct l0; simpl; try discriminate; auto.
+    intros H. apply andb_true_iff in H. destruct H as [H1 H2]. f_equal; [apply IH; exact H1|apply IHl; exact H2].
+  - f_equal. revert kvs0 H. induction kvs as [|[k x] r IHl]; destruct kvs0 as [|[k' y] r']; simpl; try discriminate; auto.
+    intros H. apply andb_true_iff in H. destruct H as [H H2]. apply andb_true_iff in H. destruct H as [H0 H1].
+    f_equal; [f_equal; [apply pkey_eqb_sound; exact H0|apply IH; exact H1]|apply IHl; exact H2].
+  - f_equal. revert l0 H. induction l as [|x r IHl]; destruct l0; simpl; try discriminate; auto.
+    intros H. apply andb_true_iff in H. destruct H as [H1 H2]. f_equal; [apply IH; exact H1|apply IHl; exact H2].
+  - apply andb_true_iff in H. destruct H as [H1 H2]. apply String.eqb_eq in H1. apply String.eqb_eq in H2. congruence.
+  - apply andb_true_iff in H. destruct H as [H0 H]. apply String.eqb_eq in H0. subst. f_equal.
+    revert fields0 H. induction fields as [|[k x] r IHl]; destruct fields0 as [|[k' y] r']; simpl; try discriminate; auto.
+    intros H. apply andb_true_iff in H. destruct H as [H H2]. apply andb_true_iff in H. destruct H as [H0 H1].
+    f_equal; [f_equal; [apply String.eqb_eq; exact H0|apply IH; exact H1]|apply IHl; exact H2].
+  - apply Z.eqb_eq in H. congruence.
+  - reflexivity.
+Qed.
